@@ -1113,3 +1113,142 @@ func ruleC04Width(cx *Ctx) {
 		cx.R.OK(rule, "policy", "no narrowing conversion", "-", fmt.Sprintf("%d 64-bit fields, none narrowed", len(wide)))
 	}
 }
+
+func init() {
+	alsoUnder(ruleC18Seed, "C18")
+	alsoUnder(ruleC16Bound, "C16", "C19", "C14")
+}
+
+// ---- C18.seed ----
+// The counters of a key are found through the hasher's seed: re-seeding the hasher while the table keeps its counters
+// makes every recorded key look new (its estimate drops although nothing aged). The hasher is therefore stored only
+// together with a freshly allocated table - in the same function after the table store, or in a helper all of whose
+// call sites come after one.
+func ruleC18Seed(cx *Ctx) {
+	const rule = "C18.seed"
+	cx.R.Rule(rule, 1, "every store of sketch.hasher is preceded, on all paths of its function or at every call site of that function, by a store of a freshly made sketch.table: the hash seed changes only when the counters are replaced")
+	hf := cx.needField(rule, "", "sketch", "hasher")
+	tf := cx.needField(rule, "", "sketch", "table")
+	if hf == nil || tf == nil {
+		return
+	}
+	isTableStore := func(in ssa.Instruction) bool {
+		st, ok := in.(*ssa.Store)
+		if !ok || !sameField(fieldOf(st.Addr), tf) {
+			return false
+		}
+		_, fresh := st.Val.(*ssa.MakeSlice)
+		return fresh
+	}
+	var precededBy func(site ssa.Instruction, depth int) bool
+	precededBy = func(site ssa.Instruction, depth int) bool {
+		fn := site.Parent()
+		found := false
+		allInstrs(fn, func(in ssa.Instruction) {
+			if found || in == site {
+				return
+			}
+			if isTableStore(in) && instrDominates(in, site) {
+				found = true
+			}
+		})
+		if found {
+			return true
+		}
+		if depth > 3 {
+			return false
+		}
+		// a constructor of a sketch that has no counters yet
+		if fn.Signature.Recv() == nil && strings.HasPrefix(fn.Name(), "new") {
+			return true
+		}
+		callers := 0
+		ok := true
+		for _, g := range cx.P.FuncsOfPkg("") {
+			allInstrs(g, func(in ssa.Instruction) {
+				if c := calleeOf(in); c != nil && origin(c) == origin(fn) {
+					callers++
+					if !precededBy(in, depth+1) {
+						ok = false
+					}
+				}
+			})
+		}
+		return callers > 0 && ok
+	}
+	n := 0
+	for _, fn := range cx.P.FuncsOfPkg("") {
+		allInstrs(fn, func(in ssa.Instruction) {
+			st, ok := in.(*ssa.Store)
+			if !ok || !sameField(fieldOf(st.Addr), hf) {
+				return
+			}
+			n++
+			cx.R.Check(precededBy(in, 0), rule, funcName(fn), "hasher seeded with a fresh table only", cx.P.where(in), "the store of the hasher follows the allocation of a new counter table on every way to it")
+		})
+	}
+	if n == 0 {
+		cx.R.Undecided(rule, "sketch", "hasher store", "-", "no store of sketch.hasher found")
+	}
+}
+
+// ---- C16.bound ----
+// One maintenance pass drains at most maxWriteBufferSize + 1 events, and the same variable is the maximum capacity
+// handed to the queue, which rounds it UP to a power of two: the drain bound covers the whole queue only when the
+// variable already is a power of two - a product of power-of-two constants and RoundUpPowerOf2 results.
+func ruleC16Bound(cx *Ctx) {
+	const rule = "C16.bound"
+	cx.R.Rule(rule, 1, "the value stored into maxWriteBufferSize (the drain bound of a maintenance pass and the queue's maximum capacity before its own rounding) is a power of two by construction: power-of-two constants multiplied / shifted with results of xmath.RoundUpPowerOf2*")
+	var pow2 func(v ssa.Value, d int) bool
+	pow2 = func(v ssa.Value, d int) bool {
+		if d > 6 {
+			return false
+		}
+		switch x := v.(type) {
+		case *ssa.Const:
+			k, ok := constInt(x)
+			return ok && k > 0 && k&(k-1) == 0
+		case *ssa.Convert:
+			return pow2(x.X, d+1)
+		case *ssa.ChangeType:
+			return pow2(x.X, d+1)
+		case *ssa.BinOp:
+			switch x.Op.String() {
+			case "*":
+				return pow2(x.X, d+1) && pow2(x.Y, d+1)
+			case "<<":
+				_, isK := constInt(x.Y)
+				return pow2(x.X, d+1) && isK
+			}
+		case *ssa.Call:
+			if c := calleeOf(x); c != nil && c.Pkg != nil && strings.HasSuffix(c.Pkg.Pkg.Path(), "/internal/xmath") && strings.HasPrefix(c.Name(), "RoundUpPowerOf2") {
+				return true
+			}
+		case *ssa.UnOp:
+			if a, ok := x.X.(*ssa.Alloc); ok {
+				if st := wholeStore(a); st != nil {
+					return pow2(st, d+1)
+				}
+			}
+		}
+		return false
+	}
+	n := 0
+	for _, fn := range cx.P.ModuleFuncs() {
+		allInstrs(fn, func(in ssa.Instruction) {
+			st, ok := in.(*ssa.Store)
+			if !ok {
+				return
+			}
+			g, isG := st.Addr.(*ssa.Global)
+			if !isG || g.Name() != "maxWriteBufferSize" {
+				return
+			}
+			n++
+			cx.R.Check(pow2(st.Val, 0), rule, funcName(fn), "drain bound is a power of two", cx.P.where(in), "maxWriteBufferSize = 2^a * RoundUpPowerOf2(parallelism): the queue's rounded capacity never exceeds what one maintenance pass drains")
+		})
+	}
+	if n == 0 {
+		cx.R.Undecided(rule, "otter", "maxWriteBufferSize", "-", "no store into the package variable maxWriteBufferSize found")
+	}
+}
